@@ -44,7 +44,14 @@ pub struct E2eCase {
     pub probe: bool,
     /// C19 mode: the tracker keeps failing (cycling through `tracker`) until the probe has been served or 20 s have passed
     pub hold_until_probe_served: bool,
+    /// number of probe peers that dial in one after another; each earlier one disconnects once served
+    #[serde(default = "one")]
+    pub probes: u8,
     pub seed: u64,
+}
+
+fn one() -> u8 {
+    1
 }
 
 #[derive(Clone, Debug, Default, Serialize, Deserialize)]
@@ -303,13 +310,16 @@ async fn fake_peer(i: usize, spec: E2ePeer, has: Vec<bool>, t: Torrent, own_id: 
     }
 }
 
-/// A peer that dials the client's listening port and waits to be served (handshake + bitfield).
-async fn probe_peer(t: Torrent, own_id: [u8; 20], sh: Arc<Shared>) {
+/// Peers that dial the client's listening port one after another and wait to be served (handshake + bitfield).
+/// Every probe but the last disconnects once served; `probe_served_ms` is set when the last one has been served.
+async fn probe_peer(t: Torrent, own_id: [u8; 20], sh: Arc<Shared>, probes: u8) {
     tokio::time::sleep(Duration::from_millis(300)).await;
+    let probes = probes.max(1);
+    let mut k = 0u8;
     loop {
         if let Ok(mut s) = TcpStream::connect(("127.0.0.1", 6881)).await {
             let mut id = *b"-FK0001-probeprobe00";
-            id[19] = b'9';
+            id[19] = b'0' + k;
             let _ = s.write_all(&wire::encode(&RFrame::handshake(t.info_hash(), id))).await;
             let mut rd = Reader { buf: vec![] };
             let mut got_hs = false;
@@ -325,11 +335,19 @@ async fn probe_peer(t: Torrent, own_id: [u8; 20], sh: Arc<Shared>) {
                     None => {}
                 }
                 if got_hs && got_bf {
-                    sh.probe_served_ms.store(ms(sh.t0), Ordering::SeqCst);
-                    // stay connected quietly
-                    tokio::time::sleep(Duration::from_secs(3600)).await;
+                    k += 1;
+                    if k >= probes {
+                        sh.probe_served_ms.store(ms(sh.t0), Ordering::SeqCst);
+                        // stay connected quietly
+                        tokio::time::sleep(Duration::from_secs(3600)).await;
+                    }
+                    // served: this probe leaves, the next one dials in a moment later
+                    drop(s);
+                    tokio::time::sleep(Duration::from_millis(150)).await;
+                    break;
                 }
             }
+            continue;
         }
         tokio::time::sleep(Duration::from_millis(200)).await;
     }
@@ -402,7 +420,7 @@ pub fn child_main(case_path: &str, out_path: &str) -> i32 {
                 tokio::spawn(fake_peer(i, spec.clone(), has, t.clone(), own_id, sh.clone()));
             }
             if case.probe {
-                tokio::spawn(probe_peer(t.clone(), own_id, sh.clone()));
+                tokio::spawn(probe_peer(t.clone(), own_id, sh.clone(), case.probes));
             }
             // give the listeners a moment to bind before the client announces
             tokio::time::sleep(Duration::from_millis(30)).await;
@@ -587,7 +605,7 @@ pub fn download_strategy() -> BoxedStrategy<E2eCase> {
     (small_geo(), vec(peer_spec(), 1..=3), prop_oneof![3 => Just(vec![]), 1 => vec(outcome(), 1..3)], prop_oneof![3 => Just(0u16), 1 => Just(1200u16)], any::<bool>(), any::<u64>())
         .prop_map(|(geo, mut peers, tracker, tracker_start_delay_ms, probe, seed)| {
             peers[0].essential = true;
-            E2eCase { geo, peers, tracker, tracker_start_delay_ms, probe, hold_until_probe_served: false, seed }
+            E2eCase { geo, peers, tracker, tracker_start_delay_ms, probe, hold_until_probe_served: false, probes: 1, seed }
         })
         .boxed()
 }
@@ -644,15 +662,16 @@ pub fn fault_strategy(tier: Tier) -> BoxedStrategy<E2eCase> {
         Tier::Quick => (1usize..=4).boxed(),
         Tier::Thorough => prop_oneof![4 => (1usize..=6).boxed(), 1 => prop::sample::select(vec![63usize, 64, 65, 66, 70]).boxed()].boxed(),
     };
-    (n, any::<u64>())
-        .prop_flat_map(|(n, seed)| (vec(outcome(), n..=n), vec(peer_spec(), 1..=3), Just(seed), prop_oneof![3 => Just(0u16), 1 => Just(1200u16)]))
-        .prop_map(|(tracker, peers, seed, delay)| E2eCase {
+    (n, any::<u64>(), 1u8..=3)
+        .prop_flat_map(|(n, seed, probes)| (vec(outcome(), n..=n), vec(peer_spec(), 1..=3), Just(seed), prop_oneof![3 => Just(0u16), 1 => Just(1200u16)], Just(probes)))
+        .prop_map(|(tracker, peers, seed, delay, probes)| E2eCase {
             geo: Geometry::single(64, 200, seed),
             peers,
             tracker,
             tracker_start_delay_ms: delay,
             probe: true,
             hold_until_probe_served: true,
+            probes,
             seed,
         })
         .boxed()
@@ -665,6 +684,7 @@ pub fn check_faults(c: &E2eCase) -> Outcome {
     o.class_if(kinds.len() >= 2, ">=2-fault-kinds");
     o.class_if(c.tracker.len() >= 60, "more-failures-than-channel-capacity");
     o.class_if(c.tracker_start_delay_ms > 0, "connection-refused-first");
+    o.class_if(c.probes >= 2, "peer-leaves-while-tracker-fails");
     let watchdog = Duration::from_secs(70 + 2 * c.tracker.len() as u64);
     match run_child(c, watchdog) {
         Err(_) => {
